@@ -219,6 +219,33 @@ theorem dmig_roundtrip (d : Dmig) (hshape : d.m.length = d.rowids.length)
   · rw [if_neg h6]
     exact direct i j rl hj hr hat (by simp [h6])
 
+/-- form 9 (single-level column index): the NCOL written on the header card is the largest column
+number — an upper bound of all column numbers that is attained. -/
+theorem dmig_ncol_form9 (d : Dmig) (hs : d.single = true) :
+    (∀ c ∈ d.colids, c.1 ≤ d.ncol) ∧ (d.colids ≠ [] → ∃ c ∈ d.colids, c.1 = d.ncol) := by
+  unfold Dmig.ncol
+  rw [if_pos hs]
+  cases hc : d.colids with
+  | nil => simp
+  | cons h t =>
+      obtain ⟨_, h2, h3⟩ := foldl_max_spec (h :: t) h.1
+      refine ⟨h2, fun _ => ?_⟩
+      rcases h3 with h3 | h3
+      · exact ⟨h, by simp, by simpa using h3.symm⟩
+      · exact h3
+
+/-- the header card: NCOL (`Dmig.ncol`: the column count, or the largest column number for form 9)
+is the field in columns 65-72, after eight 8-column fields. -/
+theorem dmig_header_ncol (d : Dmig) (hn : d.name.length ≤ 8) (hm : (dec d.mtype).length ≤ 8) :
+    ∃ pre, d.lines.head? = some (pre ++ padL 8 (dec d.ncol)) ∧ pre.length = 64 := by
+  have hf : (dec (d.form : Int)).length ≤ 8 := by
+    rcases form_cases d with h | h | h | h <;> rw [h] <;> decide
+  have h0 : (dec 0).length ≤ 8 := by decide
+  have hD : (txt "DMIG").length ≤ 8 := by decide
+  refine ⟨_, by simp only [Dmig.lines, List.head?_cons]; rfl, ?_⟩
+  simp only [List.length_append, padL_length hf, padL_length hm, padL_length h0, padR_length hn,
+    padR_length hD, blanks_length]
+
 /-! ### non-vacuity -/
 
 example : compress [1, 2, 3, 5, 7, 8] = [.thru 1 3, .one 5, .thru 7 8] := by decide
@@ -239,5 +266,8 @@ example : ({ name := ['K'], single := false, mtype := 2, rowids := [(1, 1), (1, 
 /-- the input of finding F9 (1×1, row id (1,1), column id (2,1)) is form 1 in the repaired writer -/
 example : ({ name := ['K'], single := false, mtype := 2, rowids := [(1, 1)], colids := [(2, 1)],
              m := [[(5, 0)]] } : Dmig).form = 1 := by decide
+/-- form 9 with column numbers 2, 5, 9: NCOL = 9 -/
+example : ({ name := ['P'], single := true, mtype := 2, rowids := [(1, 1)],
+             colids := [(2, 0), (5, 0), (9, 0)], m := [[(1, 0), (0, 0), (4, 0)]] } : Dmig).ncol = 9 := by decide
 
 end PyYetiVerif.C13
